@@ -175,6 +175,15 @@ func TestC06(t *testing.T) {
 	rec := ev.New(t, "C06")
 	rec.Rule("rapid-generated contention programmes on real LocalNodes in the ring simulator (initial ring 2..5 nodes): per phase one template with generated focus node, ids and call delays - k joiners into one gap through generated members; Leave(X) racing a join whose successor is X; Leave(X) racing joins at succ(X) and just after X; Leave of 2..3 adjacent nodes; join at X while pred(X) leaves; mixed. Oracle: (a) lock-interval exclusion from the proxy event log per node: two grants (RequestToJoin answered by the grantor = head of the returned successor list, RequestToLeave answered nil) must have a release (FinishJoin/FinishLeave(release) delivered) that can lie between them, judged conservatively on call/return order, and the number of grants never exceeds the Active->Transferring transitions in the node's recorded state history; (b) every refusal is retryable (documented non-refusals: duplicate id, request reached a node that already left); (c) every node's recorded state history is a path of the lifecycle graph; (d) after the quiet period every remaining node is Active and serves Put/Get. Non-trivial: >= 1 refusal or >= 2 lock windows on one node. Distinct = distinct plans.")
 	rec.Assume("the local leg of a lock (a leaver's own Leaving state, a joiner's Joining state) is judged through the state history, the remote leg through the event log")
+	// regression tier: the minimal schedule of a non-retryable refusal found by the thorough tier
+	if p := joinRoutedThroughJoiningNode(); p != "" {
+		if len(p) > 13 && p[:13] == "precondition:" {
+			rec.Inconclusive("regression-schedule-precondition")
+			t.Logf("join-through-joining-node regression: %s", p)
+		} else {
+			rec.Fail(t, "join-routed-through-joining-node-refused-non-retryably", map[string]any{"schedule": "ring {1<<44, 3<<44}; 2<<44 joins via 3<<44 and its RequestToJoin response is held; 1<<44 stabilizes and fixes fingers; 5<<43 joins via 1<<44", "problem": p}, "%s", p)
+		}
+	}
 	ev.RapidCheck(t, 40, 1500, func(t *rapid.T) {
 		plan := genC06Plan().Draw(t, "plan")
 		r := newChurnRing(plan, true)
